@@ -193,6 +193,59 @@ def collectByOffset (ps : List Entry) (limit : Nat) (rev : Bool) (after : UInt64
          | .ok rest => .ok (acc ++ rest))
       | _ => .ok acc
 
+/-! ### What a client does to read a whole listing at the gRPC level (any item type) -/
+
+/-- the page size a request with `limit` gets (`limit = 0`: the default, 100 — orders.go:317,
+types/query/pagination.go:62) -/
+def effLimit (limit : Nat) : Nat := if limit = 0 then defaultLimit else limit
+
+/-- the index prefix a lookup scans (`GetMarketOrders` / `GetOwnerOrders` / `GetAssetOrders`,
+grpc_query.go:115-183); `GetAllOrders` scans the order records themselves -/
+def OrderLookup.prefixOf : OrderLookup → Bytes
+  | .market m => prefixMarketToOrder m
+  | .owner a => prefixAddressToOrder a
+  | .asset d => prefixAssetToOrder d
+  | .all => prefixOrder
+
+/-- Follow `next_key` through ANY paged query `page` (first request without a key) and concatenate the
+pages; `limit = 0` asks for the default page size; `fuel` bounds the number of requests. -/
+def followKeys {α : Type} (page : PageReq → Except PErr (List α × PageResp)) (limit : Nat) (rev : Bool) :
+    Nat → Option Bytes → Except PErr (List α)
+  | 0, _ => .error .invalid
+  | fuel + 1, key =>
+    match page { key := key, limit := limit, reverse := rev } with
+    | .error e => .error e
+    | .ok (items, resp) =>
+      match resp.nextKey with
+      | some (b :: r) =>
+        (match followKeys page limit rev fuel (some (b :: r)) with
+         | .error e => .error e
+         | .ok rest => .ok (items ++ rest))
+      | _ => .ok items
+
+/-- Advance `offset` by the page size (`effLimit limit`) while the response carries a `next_key`. -/
+def followOffsets {α : Type} (page : PageReq → Except PErr (List α × PageResp)) (limit : Nat) (rev : Bool) :
+    Nat → Nat → Except PErr (List α)
+  | 0, _ => .error .invalid
+  | fuel + 1, offset =>
+    match page { offset := offset, limit := limit, reverse := rev } with
+    | .error e => .error e
+    | .ok (items, resp) =>
+      match resp.nextKey with
+      | some (_ :: _) =>
+        (match followOffsets page limit rev fuel (offset + effLimit limit) with
+         | .error e => .error e
+         | .ok rest => .ok (items ++ rest))
+      | _ => .ok items
+
+/-! ### What `parseRaw` guarantees of a dump of a real KV store -/
+
+/-- A well-formed dump: each key once (it is the iteration of a KV store), and each order record carries
+the id read from its key (`parseRaw` re-reads it; the id is not part of the stored value). -/
+structure DumpWF (s : Store) : Prop where
+  nodup : KeysNodup s
+  ids : ∀ r o, (2 :: r, Val.order o) ∈ s → o.id = (u64FromBz r).getD 0
+
 /-! ### What the records reserve (observed through the hold module) -/
 
 def usdDenom : Bytes := [117, 115, 100]
